@@ -81,9 +81,9 @@ def foreign_extra_dims(rng):
     prefix of the other"""
     from laspy import ExtraBytesParams
     a = dict(name="height", type="i4", scales=np.array([0.01]), offsets=np.array([100.0]), description="above ground")
-    b = dict(name="quality", type="u2", description="")
+    b = dict(name="quality", type="2u2", description="")
     kinds = ["other_scale", "other_offset", "other_name", "same_width_other_type", "file_has_one_more", "records_have_one_more",
-             "unscaled_vs_scaled"]
+             "unscaled_vs_scaled", "same_width_other_element_count"]
     variant = kinds[_FOREIGN_K[0] % len(kinds)]      # every kind in turn, whatever the seed
     _FOREIGN_K[0] += 1
     a2, second = dict(a), True
@@ -99,6 +99,8 @@ def foreign_extra_dims(rng):
     elif variant == "unscaled_vs_scaled":
         a2.pop("scales")
         a2.pop("offsets")
+    elif variant == "same_width_other_element_count":
+        theirs = [a, dict(b, type="u4")]          # one 32-bit element where the file has two 16-bit ones
     elif variant == "file_has_one_more":
         theirs = [a]
     else:
